@@ -171,4 +171,20 @@ PLAN = {
             {"name": "miri", "flavour": "miri", "shards": 6, "shards_thorough": 48, "timeout": 1500},
         ],
     },
+    "C15": {
+        "level": "exploration",
+        "rule": "buckets leg: ascending bound lists (1-8 bounds from a pool incl. +-inf, +-0, tiny/huge) x 0-39 samples (equal to bounds, "
+                "bounds +- 1e-9, negatives, +-inf, NaN, or dyadic) recorded singly and in random batchings: count(b) == #{s <= b}, "
+                "cumulative, never decreasing over time, +Inf == count, single == batched, sums (exact on dyadic samples). matchers leg: "
+                "0-5 Full/Prefix/Suffix overrides + optional global buckets vs a reference precedence (judged when the winning class has one "
+                "candidate). window leg: RollingSummary under a mock clock (1-5 buckets, 1 ns - 20 s), steps at bucket/window edges +-1 ns, "
+                "outlier samples; snapshot count and quantiles vs certainly-in / possibly-in sample sets. distinct = case hash.",
+        "assumptions": ["a sample is certainly in the window if younger than window - bucket_duration and certainly expired if older than the window",
+                        "quantile tolerance 1e-3 relative (sketch alpha 1e-4)"],
+        "legs": [
+            {"name": "buckets", "flavour": "native", "shards": 2, "shards_thorough": 8},
+            {"name": "matchers", "flavour": "native", "shards": 2, "shards_thorough": 8},
+            {"name": "window", "flavour": "native", "shards": 4, "shards_thorough": 16},
+        ],
+    },
 }
